@@ -319,7 +319,7 @@ static bool has_ringing_bell(struct xpoll *xpoll)
     return false;
 }
 
-static void update_active_fd(struct xpoll *xpoll)
+static int update_active_fd(struct xpoll *xpoll)
 {
     if (xpoll->num_bell_regs == 0 && xpoll->active_fd >= 0) {
 	xpoll_fd_reg_del(xpoll, xpoll->active_fd_reg_id);
@@ -328,7 +328,13 @@ static void update_active_fd(struct xpoll *xpoll)
 	active_fd_put(xpoll->active_fd);
 	xpoll->active_fd = -1;
     } else if (xpoll->num_bell_regs > 0 && xpoll->active_fd < 0) {
-	xpoll->active_fd = active_fd_get();
+	int active_fd = active_fd_get();
+
+	/* out of file descriptors */
+	if (active_fd < 0)
+	    return -1;
+
+	xpoll->active_fd = active_fd;
 	xpoll->active_fd_reg_id = xpoll_fd_reg_add(xpoll, xpoll->active_fd, 0);
     }
 
@@ -336,6 +342,8 @@ static void update_active_fd(struct xpoll *xpoll)
 	int event = has_ringing_bell(xpoll) ? EPOLLIN : 0;
 	xpoll_fd_reg_mod(xpoll, xpoll->active_fd_reg_id, event);
     }
+
+    return 0;
 }
 
 int xpoll_bell_reg_add(struct xpoll *xpoll, bool ringing)
@@ -348,7 +356,10 @@ int xpoll_bell_reg_add(struct xpoll *xpoll, bool ringing)
     LOG_XPOLL_BELL_REG_ADD(xpoll->log_ref, xpoll->epoll_fd, new_reg_idx,
 			   ringing);
 
-    update_active_fd(xpoll);
+    if (update_active_fd(xpoll) < 0) {
+	deallocate_bell_reg_idx(xpoll, new_reg_idx);
+	return -1;
+    }
 
     return new_reg_idx;
 }
